@@ -190,6 +190,11 @@ def groups_for(pid, tr, wd, rng):
         honest("h55", [1, 2, 3, 4, 5], [1, 2, 3, 4, 5], 5, 30 if not big else 300)
         honest("h58", [3, 7, 20, 21, 22, 40, 41, 60], [3, 20, 22, 41, 60], 5, 20 if not big else 200)
         honest("hbig", [7, 300, 65535, 256], [7, 300, 65535], 3, 20 if not big else 100)
+        # identifiers that agree in one byte (low bytes equal: 2, 258, 65282; high bytes equal; low byte zero): the per-topic tags and
+        # the wire form of a view must depend on the whole 16-bit identifier
+        honest("hcong", [2, 258, 514, 65282, 3], [2, 258, 65282], 3, 16 if not big else 100)
+        honest("hcong2", [2, 258, 514, 770], [2, 258, 514, 770], 4, 8 if not big else 60)
+        honest("hlow0", [256, 512, 768, 1024, 0], [256, 512, 1024], 3, 12 if not big else 60)
         honest("few", [1, 2, 3, 4], [1, 3], 3, 16 if not big else 100, expect_all=False, expect_none=True, deadline=120)
         honest("many", [1, 2, 3, 4], [1, 2, 3, 4], 3, 30 if not big else 300, expect_all=False, deadline=150)
         # a message handled exactly BETWEEN two steps of Synchronize (the model's Snap / Check / Query / Done are separate actions): the
